@@ -67,12 +67,105 @@ let fsm_case toks =
   | [ "abs_table" ; _ ] | _ ->
       String.concat " " (List.map (fun s -> Printf.sprintf "%d:%d" (int_of_n (fstate_id s)) (int_of_n (dstate_id (abs s)))) all_fstates)
 
+(* ------------------------------------------------------------------ link / dispatch *)
+let opt_n s = if s = "-" then None else Some (n_of_int (int_of_string s))
+
+(* tiny parser for the custom-checks json the harness gets: {"rdh_version":7,"chip_count_ob":7,"chip_orders_ob":[[0,1],[2]]} *)
+let find_after s key =
+  let k = "\"" ^ key ^ "\":" in
+  let lk = String.length k and ls = String.length s in
+  let rec go i = if i + lk > ls then None else if String.sub s i lk = k then Some (i + lk) else go (i + 1) in
+  go 0
+let json_int s key =
+  match find_after s key with
+  | None -> None
+  | Some i ->
+      let j = ref i in
+      while !j < String.length s && s.[!j] >= '0' && s.[!j] <= '9' do incr j done;
+      if !j = i then None else Some (n_of_int (int_of_string (String.sub s i (!j - i))))
+let json_orders s =
+  match find_after s "chip_orders_ob" with
+  | None -> None
+  | Some i ->
+      if i < String.length s && s.[i] = 'n' then None else begin
+      (* parse [[a,b],[c]] *)
+      let depth = ref 0 and j = ref i and cur = ref [] and all = ref [] and num = ref (-1) in
+      let fin = ref false in
+      while not !fin do
+        let c = s.[!j] in
+        (match c with
+         | '[' -> incr depth; if !depth = 2 then cur := []
+         | ']' ->
+             if !num >= 0 then begin cur := n_of_int !num :: !cur; num := -1 end;
+             if !depth = 2 then all := List.rev !cur :: !all;
+             decr depth; if !depth = 0 then fin := true
+         | ',' -> if !num >= 0 then begin cur := n_of_int !num :: !cur; num := -1 end
+         | '0' .. '9' -> num := (if !num < 0 then 0 else !num) * 10 + (Char.code c - 48)
+         | _ -> ());
+        incr j
+      done;
+      Some (List.rev !all) end
+
+let parse_vcfg head =
+  match split_ws head with
+  | [ mode; target; period; custom ] ->
+      let running = mode = "all" in
+      let tg = match target with "none" -> T_none | "its" -> T_its | _ -> T_stave in
+      let cv, cc, co =
+        if custom = "-" then (None, None, None)
+        else (json_int custom "rdh_version", json_int custom "chip_count_ob", json_orders custom) in
+      { v_running = running; v_target = tg; v_period = opt_n period; v_custom_version = cv; v_chip_count = cc; v_chip_orders = co }
+  | _ -> failwith "cfg"
+
+let parse_cdps body =
+  List.map
+    (fun tok ->
+      match String.split_on_char ':' tok with
+      | [ off; rdh; payload ] ->
+          { c_rdh = decode_rdh (bytes_of_hex rdh); c_payload = bytes_of_hex payload; c_off = n_of_int (int_of_string ("0x" ^ off)) }
+      | [ off; rdh ] -> { c_rdh = decode_rdh (bytes_of_hex rdh); c_payload = []; c_off = n_of_int (int_of_string ("0x" ^ off)) }
+      | _ -> failwith "cdp")
+    (split_ws body)
+
+let fmt_msg = function
+  | VErr e ->
+      Printf.sprintf "E:%X:%d:%s:%s" (int_of_n e.e_off) (int_of_n e.e_code)
+        (match e.e_word with Some w -> hex_of_bytes w | None -> "-")
+        (String.concat "," (List.map (fun t -> string_of_int (int_of_n t)) e.e_tags))
+  | VStats f -> "A:" ^ String.concat "," (List.map (fun x -> string_of_int (int_of_n x)) (rflags_list f))
+
+let fmt_msgs l = if l = [] then "-" else String.concat " " (List.map fmt_msg l)
+
+let split_head line =
+  match String.index_opt line ';' with
+  | Some i -> (String.sub line 0 i, String.sub line (i + 1) (String.length line - i - 1))
+  | None -> failwith "no ;"
+
+let link_line line =
+  let head, body = split_head line in
+  let c = parse_vcfg head in
+  match run_validator c (parse_cdps body) with
+  | Ok m -> fmt_msgs m
+  | Panic s -> "PANIC:" ^ string_of_int (int_of_n s)
+
+let dispatch_line line =
+  let head, body = split_head line in
+  let c = parse_vcfg head in
+  String.concat " ; "
+    (List.map
+       (fun (id, r) ->
+         Printf.sprintf "%d= %s" (int_of_n id)
+           (match r with Ok m -> fmt_msgs m | Panic s -> "PANIC:" ^ string_of_int (int_of_n s)))
+       (run_dispatch c (parse_cdps body)))
+
 let () =
   let stream = Sys.argv.(1) in
   let handler =
     match stream with
-    | "words" -> words_case
-    | "fsm" -> fsm_case
+    | "words" -> (fun l -> words_case (split_ws l))
+    | "fsm" -> (fun l -> fsm_case (split_ws l))
+    | "link" -> link_line
+    | "dispatch" -> dispatch_line
     | _ -> prerr_endline ("unknown stream " ^ stream); exit 2
   in
   let buf = Buffer.create (1 lsl 20) in
@@ -80,7 +173,7 @@ let () =
      while true do
        let line = input_line stdin in
        if line <> "" && line.[0] <> '#' then begin
-         Buffer.add_string buf (handler (split_ws line));
+         Buffer.add_string buf (handler line);
          Buffer.add_char buf '\n';
          if Buffer.length buf > (1 lsl 20) then begin print_string (Buffer.contents buf); Buffer.clear buf end
        end
